@@ -2,6 +2,7 @@ import Driver.Proto
 import Selene.Lua.Read
 import Selene.Scope.Lints
 import Selene.Scope.MoreLints
+import Selene.Lints.Cyclomatic
 import Selene.Scope.Spec
 import Selene.Scope.Core
 import Selene.Scope.TopProof
@@ -86,7 +87,7 @@ def handleTables : Handler := fun input impl =>
       match impl with
       | .atom "panic" =>
         { agree := σ.panic.isSome, spec := some "[C11] scope analysis / lint pass panicked", model := toString (repr σ.panic), tags := ["panic"] }
-      | .list [.list [.list irefs, .list ivars, .list icalls], .list [.list idiags, .list idiagsV1, .list idiagsV2, .list idiagsV3, .list idiagsV4]] =>
+      | .list [.list [.list irefs, .list ivars, .list icalls], .list [.list idiags, .list idiagsV1, .list idiagsV2, .list idiagsV3, .list idiagsV4, .list idiagsHcc]] =>
         let mrefs := σ.refs.toList.map (showRef σ)
         let mvars := σ.vars.toList.map (showVar σ)
         let mcalls := σ.calls.toList.map (showCall σ)
@@ -103,7 +104,13 @@ def handleTables : Handler := fun input impl =>
         -- v3 / v4: a `[config.unused_variable]` section that sets only one option; the other keeps its documented default
         let mdV3 := sortStrs ((undefinedVariable hasFields σ ++ unusedVariable hasFields argObs defaultIgnore false σ ++ shadowing defaultIgnore σ ++ mustUse isMustUse σ ++ more).map showDiag)
         let mdV4 := sortStrs ((undefinedVariable hasFields σ ++ unusedVariable hasFields argObs ignoreV1 true σ ++ shadowing defaultIgnore σ ++ mustUse isMustUse σ ++ more).map showDiag)
-        let diagsOk := md == idk && mdV1 == sortStrs (idiagsV1.filterMap implDiagKey) && mdV2 == sortStrs (idiagsV2.filterMap implDiagKey) &&
+        -- high_cyclomatic_complexity with maximum_complexity = 2: range and message of every report
+        let mdHcc := sortStrs ((Selene.Lints.Cyclomatic.lint 2 chunk.block).map fun g => s!"({showSpan g.primary} {g.msg.quote})")
+        let idHcc := sortStrs (idiagsHcc.filterMap fun d => match d with
+          | .list [_, p, m, _] => some s!"({toString p} {(m.asString?.getD "").quote})"
+          | _ => none)
+        let hccOk := mdHcc == idHcc
+        let diagsOk := hccOk && md == idk && mdV1 == sortStrs (idiagsV1.filterMap implDiagKey) && mdV2 == sortStrs (idiagsV2.filterMap implDiagKey) &&
           mdV3 == sortStrs (idiagsV3.filterMap implDiagKey) && mdV4 == sortStrs (idiagsV4.filterMap implDiagKey)
         let panicOk := σ.panic.isNone
         -- the resolution core (`Scope/Core.lean`, the machine `Props/C01.lean` proves equal to Lua's resolver):
@@ -262,13 +269,14 @@ def handleTables : Handler := fun input impl =>
           (if spec.decls.any (fun d => d.kind == .loopVar) then ["loop-var"] else []) ++
           (if !undefToks.isEmpty then ["undefined-reported"] else []) ++
           (if !unusedToks.isEmpty then ["unused-reported"] else []) ++
-          (if !shadowDiags.isEmpty then ["shadowing-reported"] else [])
+          (if !shadowDiags.isEmpty then ["shadowing-reported"] else []) ++
+          (if !mdHcc.isEmpty then ["cyclomatic-reported"] else [])
         { agree := refsOk && varsOk && callsOk && diagsOk && panicOk && coreOk,
           spec := if items.isEmpty then none else some (" ;; ".intercalate items),
           model := (if md == idk then "" else "DEFAULT-CONFIG-DIAGS ") ++ (if panicOk then "" else s!"MODEL-PANIC {repr σ.panic} ") ++
                    (if refsOk then "" else s!"REFS model {mrefs} ") ++ (if varsOk then "" else s!"VARS model {mvars} ") ++
                    (if callsOk then "" else s!"CALLS model {mcalls} ") ++
-                   (if coreOk then "" else s!"CORE model reads {showAns coreRefs} impl {showAns implReads} decls {showAns coreDecls} impl {showAns implDecls} undefined {coreUndef} impl {implUndef} roots {coreRoots} impl {implRoots} ") ++ (if diagsOk then "" else s!"DIAGS model {md} impl {idk}"),
+                   (if coreOk then "" else s!"CORE model reads {showAns coreRefs} impl {showAns implReads} decls {showAns coreDecls} impl {showAns implDecls} undefined {coreUndef} impl {implUndef} roots {coreRoots} impl {implRoots} ") ++ (if hccOk then "" else s!"CYCLOMATIC model {mdHcc} impl {idHcc} ") ++ (if diagsOk then "" else s!"DIAGS model {md} impl {idk}"),
           tags }
       | _ => .malformed "tables impl"
     | _, _ => .malformed "tables chunk"
